@@ -1,6 +1,6 @@
 //! Development helper: compile a Sway script given on the command line (file) at O0 and O1 and run it.
-use crate::exec;
-use crate::fastc::FastCompiler;
+use vcore::exec;
+use vcore::fastc::FastCompiler;
 use sway_core::OptLevel;
 
 pub fn run(args: &[String]) {
